@@ -52,7 +52,8 @@ class CaseResult:
         return sexpr.parse_all(self.text)
 
 
-_MARK = re.compile(r"^#(END|[A-Za-z0-9_.:-]+)$", re.M)
+# a case id is never t/f/true/false, so that an observation line that is just #t or #f is not taken for a marker
+_MARK = re.compile(r"^#(END|(?!(?:t|f|true|false)$)[A-Za-z0-9_.:-]+)$", re.M)
 
 
 def split_output(out):
